@@ -28,6 +28,31 @@ def translate():
                 for kw in node.keywords:
                     if kw.arg == "random_state" and isinstance(kw.value, ast.Constant) and isinstance(kw.value.value, int):
                         literal_attrs.setdefault(_ns(node.func), set()).add(kw.value.value)
+    # fail-closed inventory of randomness sources: draws from numpy's global stream, one private generator seeded with the
+    # object's own random_state, and the seeding calls classified below - nothing else (no unseeded generators, no reseeding of a
+    # generator object that may be the global module, no other entropy)
+    draw_ok = {"rand", "randn", "random", "random_sample", "gamma", "choice"}
+    for p, tree in trees.items():
+        rel = p.relative_to(REPO)
+        for node in ast.walk(tree):
+            if isinstance(node, (ast.Import, ast.ImportFrom)):
+                mods = [a.name for a in node.names] + ([node.module] if isinstance(node, ast.ImportFrom) and node.module else [])
+                if any(m.split(".")[0] in ("random", "secrets") or m in ("numpy.random",) for m in mods):
+                    raise TranslateError(f"{rel}:{node.lineno}: unexpected import of a randomness module: {mods}")
+            if isinstance(node, ast.Call):
+                f = _ns(node.func)
+                last = f.split(".")[-1]
+                if f.startswith(("np.random.", "numpy.random.")):
+                    if last in draw_ok or last in ("seed", "set_state", "get_state"):
+                        continue
+                    if last == "RandomState" and [_ns(a) for a in node.args] == ["self.random_state"] and not node.keywords:
+                        continue
+                    raise TranslateError(f"{rel}:{node.lineno}: unexpected randomness source {f}({', '.join(_ns(a) for a in node.args)})")
+                if last in ("default_rng", "SeedSequence", "Generator", "urandom", "token_bytes", "getrandbits") or \
+                        (last == "seed" and not f.startswith(("np.random", "numpy.random"))) or last == "RandomState":
+                    raise TranslateError(f"{rel}:{node.lineno}: unexpected randomness source / reseeding {f}(...)")
+                if f.startswith("self._rng.") and last not in draw_ok:
+                    raise TranslateError(f"{rel}:{node.lineno}: unexpected use of the private generator: {f}")
     run_path_funcs = {"run_sampling", "execute_iteration", "_initialize_fresh", "fit", "predict", "predict_proba", "run",
                       "sample", "compute_posterior", "_propose", "from_particles", "from_global", "_initialize_parameters",
                       "_e_step", "_m_step", "fit_mvstud", "systematic_resample", "trim_weights", "__init__"}
@@ -112,8 +137,15 @@ def ll(x):
     return -0.5 * float(np.sum(x ** 2))
 
 
+def ll_hole(x):
+    # zero likelihood on part of the prior: the warm-up replacement of -inf draws (a random choice) is exercised
+    return -np.inf if x[0] < -1.0 else -0.5 * float(np.sum(x ** 2))
+
+
 def run_once(random_state, pre_seed, cfg, save_dir=None):
     from tempest import Sampler
+    cfg = dict(cfg)
+    like = ll_hole if cfg.pop("hole", False) else ll
     calls = []
     orig = np.random.seed
 
@@ -125,7 +157,7 @@ def run_once(random_state, pre_seed, cfg, save_dir=None):
     try:
         orig(pre_seed)
         extra = dict(output_dir=str(save_dir), output_label="c09") if save_dir is not None else {}
-        s = Sampler(pt, ll, n_dim=2, n_particles=12, random_state=random_state, **cfg, **extra)
+        s = Sampler(pt, like, n_dim=2, n_particles=12, random_state=random_state, **cfg, **extra)
         s.run(n_total=40, progress=False, save_every=1 if save_dir is not None else None)
     finally:
         np.random.seed = orig
@@ -155,7 +187,8 @@ def run_once(random_state, pre_seed, cfg, save_dir=None):
 
 
 def sweep(run, tier, rng):
-    cfgs = [dict(clustering=False), dict(clustering=True), dict(clustering=True, sample="rwm", resample="syst")]
+    cfgs = [dict(clustering=False), dict(clustering=True), dict(clustering=True, sample="rwm", resample="syst"),
+            dict(clustering=False, hole=True)]
     if tier != "quick":
         cfgs += [dict(clustering=False, sample="rwm"), dict(clustering=True, cluster_every=2), dict(clustering=False, resample="syst", volume_variation=0.5)]
     for ci, cfg in enumerate(cfgs):
@@ -246,6 +279,7 @@ def fit_probe(run, tier, rng):
                 m = HierarchicalGaussianMixture(normalize=bool(t % 2)).fit(X, w)
                 m.predict(X)
                 GaussianMixture(n_components=2, random_state=None).fit(X, w)
+                GaussianMixture(n_components=2, random_state=None, n_init=3).fit(X, w)
             finally:
                 np.random.seed = orig
             after.append(float(np.random.rand()))
